@@ -97,7 +97,8 @@ def run_check(copy, prop, tier, out, seed='1'):
                        stdout=subprocess.PIPE, stderr=subprocess.STDOUT, text=True)
     dt = time.time() - t0
     viol = [ln for ln in p.stdout.splitlines() if ln.startswith('VIOLATION')]
-    keys = [ln.strip() for ln in p.stdout.splitlines() if ln.startswith('  ') and ':' in ln][:6]
+    import re as _re
+    keys = [ln.strip() for ln in p.stdout.splitlines() if _re.match(r'^  [A-Za-z_][\w:+.<>\-]*: ', ln)][:6]
     return dict(exit=p.returncode, seconds=round(dt, 1), violations=len(viol), keys=keys,
                 tail=p.stdout[-1500:] if p.returncode not in (0, 1) else '')
 
